@@ -116,7 +116,9 @@ func (h *H) limitCases() (cs []func() limitCase, kinds []string) {
 		add("array", func() limitCase {
 			return classCase("array", "CasmClass.Bytecode", n, &core.SierraClass{Compiled: &core.CasmClass{Bytecode: feltsN(n)}})
 		})
-		add("array", func() limitCase { return txCase("InvokeTransaction.CallData", n, &core.InvokeTransaction{CallData: feltsN(n)}) })
+		add("array", func() limitCase {
+			return txCase("InvokeTransaction.CallData", n, &core.InvokeTransaction{CallData: feltsN(n)})
+		})
 		add("array", func() limitCase {
 			ps := make([]*felt.Felt, n)
 			for i := range ps {
@@ -291,7 +293,8 @@ func (h *H) phaseLimits(shard, shards int) {
 			continue
 		}
 		// the typed model (type tables, felt limbs, key order) encodes and decodes the same value
-		if c.kind != "nesting" && c.n <= 65537 {
+		// (maps only up to 257 entries: the model sorts by insertion, quadratic in the entry count)
+		if c.kind != "nesting" && c.n <= 65537 && (c.kind != "map" || c.n <= 257) {
 			mode := h.decoderMode()
 			switch v := c.v.(type) {
 			case *core.DeclaredClassDefinition:
